@@ -9,6 +9,7 @@ sys.path.insert(0, os.path.join(VERIF, "engines", "asmabi"))
 import asmabi  # noqa: E402
 import asmsym  # noqa: E402
 from asmsym import Machine, G, Unsupported  # noqa: E402
+from asmabi import mem_operand  # noqa: E402
 from symexec import Terms  # noqa: E402
 import r_round  # noqa: E402
 from r_asm import objects, op_of  # noqa: E402
@@ -405,6 +406,17 @@ def wide_heads(cfg, insns):
     return out
 
 
+def rule_R1asm_hash(ctx):
+    """every stage of every assembly hash_many, both increment modes"""
+    n = 0
+    for o in objects(ctx):
+        for fname in sorted(o.funcs):
+            if op_of(fname) == "hash_many":
+                for inc in (1, 0):
+                    n += check_hash_many(ctx, o, fname, inc)
+    ctx.floor("assembly hash_many stages decided (both increment modes)", n, 60)
+
+
 def rule_R1asm_xof(ctx):
     n = 0
     for o in objects(ctx):
@@ -461,8 +473,11 @@ def carry_add(T, new_lo, new_hi, old_lo, old_hi, c):
         return new_lo == old_lo and new_hi == old_hi
     if new_lo != T.add(old_lo, T.const(c)):
         return False
-    cond = T.mk("ltu", new_lo, old_lo)
-    return new_hi == T.mk("sel", cond, T.add(old_hi, T.const(1)), old_hi)
+    for cond in (T.mk("ltu", new_lo, old_lo), T.mk("ltu", new_lo, T.const(c))):
+        # new = old + c (mod 2^32) wrapped  <=>  new <u old  <=>  new <u c
+        if new_hi == T.mk("sel", cond, T.add(old_hi, T.const(1)), old_hi):
+            return True
+    return False
 
 
 def reg_sym(M, name):
@@ -606,3 +621,567 @@ def check_xof_many(ctx, o, fname):
                 problem = "initial counter lane %d is (lo %s, hi %s) ; required counter + %d" % (j, T.show(nl)[:50] if nl is not None else None, T.show(nh)[:70] if nh is not None else None, j)
                 break
         ctx.ob(problem is None, "asm-xof-initial-counters:%s" % tag, where, problem or "frame[4j] / frame[0x40+4j] = low/high word of counter + j for j = 0..15")
+
+
+# ======================================================================= hash_many: cut-point analysis ====
+HASH_MANY_ARGS = [("inputs", "ptr"), ("num_inputs", "u64"), ("blocks", "u64"), ("key", "ptr"), ("counter", "u64"),
+                  ("increment_counter", "u8"), ("flags", "u8"), ("flags_start", "u8"), ("flags_end", "u8"), ("out", "ptr")]
+
+
+class ManyAnalysis:
+    """regions of a many-kernel between cut points (function entry, loop heads with a symbolic trip count,
+    undecided forward branches), all evaluated over ONE term store so that values can be carried from the
+    prologue / preheaders into loop bodies for registers and stack slots that the loop does not write"""
+
+    def __init__(self, o, fname, args, increment=None):
+        self.o, self.fname, self.insns = o, fname, o.funcs[fname]
+        self.idx = {i.addr: n for n, i in enumerate(self.insns)}
+        self.cfg = CFG(self.insns)
+        self.T = Terms()
+        self.args = args
+        self.increment = increment
+        self.base = self.insns[0].addr
+        self.argsyms = {}
+        # loop heads with a symbolic trip count: their back edge is a conditional jump (the constant-trip round loops
+        # of the kernels close with an unconditional jmp and leave through `dec al; jz`)
+        self.sym_heads = set()
+        for head, srcs in self.cfg.heads.items():
+            for a in srcs:
+                if self.insns[self.idx[a]].mn != "jmp":
+                    self.sym_heads.add(head)
+        self.def_values = {}
+        self.all_written_gprs = set()
+        for i in self.insns:
+            if i.mn not in ("push", "pop"):
+                self.all_written_gprs |= {r for r in asmabi.writes(i) if r in asmabi.GPR64}
+        self.regions = {}
+        for start, M, res in self._enumerate(stops=self.sym_heads):
+            self.regions[start] = (M, res)
+
+    # ---- machines ----
+    def entry_machine(self):
+        o = self.o
+        M = Machine(o, self.T)
+        rsp = M.sym64("rsp0")
+        M.gpr["rsp"] = rsp
+        (s0, _), = rsp.items.items()
+        M.frame_regs[s0] = "rsp0"
+        self.s0 = s0
+        regs = ARGREGS[o.flavour]
+        for i, (name, ty) in enumerate(self.args):
+            small = ty == "u8"
+            sname = ("arg8:" if small else "") + name
+            if name == "increment_counter" and self.increment is not None:
+                g = G({}, self.increment)
+            elif small:
+                g = M.sym64(sname, small=True)
+            else:
+                g = M.sym64(sname)
+            self.argsyms[name] = g
+            if i < len(regs):
+                M.gpr[regs[i]] = g
+            else:
+                off = 8 + 8 * i if o.flavour == "windows_gnu" else 8 + 8 * (i - len(regs))
+                if small or g.is_const():
+                    M.frame[(s0, off)] = M.lo32(g)
+                else:
+                    M.frame64[(s0, off)] = g
+        return M
+
+    def unique_reaching_def(self, start, reg):
+        """address of the single instruction whose write of `reg` reaches `start` on every path, else None"""
+        blocks = self.cfg.blocks
+        preds = {}
+        for a, (s, e) in blocks.items():
+            last = self.insns[e - 1]
+            succs = []
+            if asmabi.is_jump(last.mn):
+                t = asmsym.jump_target(last)
+                if t in blocks:
+                    succs.append(t)
+                if last.mn != "jmp" and e < len(self.insns):
+                    succs.append(self.insns[e].addr)
+            elif last.mn != "ret" and e < len(self.insns):
+                succs.append(self.insns[e].addr)
+            for x in succs:
+                preds.setdefault(x, []).append(a)
+        defs = set()
+        seen = set()
+        work = list(preds.get(self.cfg.block_of(start), [])) if start in blocks else []
+        if start not in blocks:
+            return None
+        while work:
+            b = work.pop()
+            if b in seen:
+                continue
+            seen.add(b)
+            s, e = blocks[b]
+            d = None
+            for i in reversed(self.insns[s:e]):
+                if i.mn != "pop" and reg in asmabi.writes(i):
+                    d = i.addr
+                    break
+            if d is not None:
+                defs.add(d)
+            elif b == self.insns[0].addr:
+                defs.add("entry")
+            else:
+                work.extend(preds.get(b, []))
+        return defs.pop() if len(defs) == 1 and "entry" not in defs else None
+
+    def is_global(self, g):
+        """the value mentions only argument symbols (no region-local register or memory symbols)"""
+        T = self.T
+        for sid in g.items:
+            stack = [sid]
+            while stack:
+                x = stack.pop()
+                n = T.rev[x]
+                if n[0] == "sym":
+                    nm = n[1]
+                    if not (nm.startswith("arg8:") or nm in [a for a, _ in self.args]):
+                        return False
+                elif n[0] == "c":
+                    pass
+                elif n[0] in ("z32", "lo", "hi", "b0"):
+                    stack.append(n[1])
+                elif n[0] in ("or", "and", "add", "xor"):
+                    stack.extend(n[1])
+                else:
+                    return False
+        return True
+
+    def value_after(self, addr, reg):
+        """value of `reg` right after the instruction at `addr`, in the region that executes it (None if unknown)"""
+        for start, (M, res) in self.regions.items():
+            pass
+        return None
+
+    def region_machine(self, start):
+        """fresh symbols, except values that are function-level invariants established by the prologue"""
+        M = Machine(self.o, self.T)
+        P = self.prologue
+        # frame bases keep their identity
+        M.frame_regs = dict(P.frame_regs)
+        for r in ("rsp", "rbp"):
+            if r in self.stable_gprs or r == "rsp":
+                M.gpr[r] = P.gpr[r]
+        for r in self.stable_gprs:
+            M.gpr[r] = P.gpr[r]
+        for r in self.stable_vecs:
+            M.vec[r] = list(P.vec[r])
+        for r in self.stable_k:
+            M.k[r] = list(P.k[r])
+        for k, v in P.frame.items():
+            if k not in self.unstable_slots:
+                M.frame[k] = v
+        for k, v in P.frame64.items():
+            if k not in self.unstable_slots:
+                M.frame64[k] = v
+        M.small |= P.small
+        return M
+
+    def _enumerate(self, stops):
+        insns = self.insns
+        first = True
+        todo = [insns[0].addr]
+        seen = set()
+        out = []
+        stop_states = {}
+        self.stop_states = stop_states
+        inherit = {}
+        first_region_done = [False]
+        jump_targets = {asmsym.jump_target(i) for i in insns if asmabi.is_jump(i.mn)}
+        while todo and len(out) < 120:
+            a = todo.pop(0)
+            if a in seen or a not in self.idx:
+                continue
+            seen.add(a)
+            if first:
+                M = self.entry_machine()
+            elif a in inherit:
+                M = inherit[a].clone()       # the only way here is the fall-through of one undecided forward branch
+            else:
+                M = self.region_machine(a)
+                # a general register that is fresh here but has ONE reaching definition whose value is a function of the
+                # arguments only (e.g. 64*blocks, the flag bytes) carries that value
+                for r in sorted(self.all_written_gprs):
+                    if r in M.gpr or r in ("rsp", "rbp"):
+                        continue
+                    d = self.unique_reaching_def(a, r)
+                    v = self.def_values.get((d, r)) if d is not None else None
+                    if v is not None and self.is_global(v):
+                        M.gpr[r] = v
+                P = stop_states.get(a)
+                if P is not None and a in self.sym_heads:
+                    wr, _ = self.loop_written(a)
+                    for r, g in P.gpr.items():
+                        if r not in wr:
+                            M.gpr[r] = g
+                    for r, v in P.vec.items():
+                        if r not in wr:
+                            M.vec[r] = list(v)
+                    for r, v in P.k.items():
+                        if r not in wr:
+                            M.k[r] = list(v)
+                    lw = self.loop_written_slots(a, P)
+                    for k, v in P.frame.items():
+                        if k not in lw:
+                            M.frame[k] = v
+                    for k, v in P.frame64.items():
+                        if k not in lw and (k[0], k[1] + 4) not in lw:
+                            M.frame64[k] = v
+            M.def_values = self.def_values
+            res = M.run(insns, self.idx[a], stop_addrs=set(stops))
+            if res[0] == "stop":
+                stop_states.setdefault(res[1], M)
+            if first:
+                self._finish_prologue(M, res)
+                first = False
+            out.append((a, M, res))
+            if res[0] == "branch":
+                ins, cc, tgt, pc = res[1]
+                if tgt is not None:
+                    todo.append(tgt)
+                if pc + 1 < len(insns):
+                    ft = insns[pc + 1].addr
+                    todo.append(ft)
+                    if ft not in jump_targets and ft not in seen and tgt is not None and tgt > ins.addr:
+                        inherit.setdefault(ft, M)
+            elif res[0] == "stop":
+                todo.append(res[1])
+            first_region_done[0] = True
+        return out
+
+    def _finish_prologue(self, M, res):
+        """what the first region establishes and nothing later overwrites"""
+        self.prologue = M
+        insns = self.insns
+        pro_end = res[1][3] if res[0] == "branch" else len(insns) - 1
+        later = insns[pro_end + 1:]
+        written = set()
+        slot_writes = set()
+        for i in later:
+            if i.mn != "pop":            # the restoring pops of the function epilogue end the frame's life, they are not updates
+                written |= asmabi.writes(i)
+            if i.ops:
+                mem = mem_operand(i.ops[0])
+                if mem and asmabi.canon_reg(i.ops[0]) is None and i.mn not in asmabi.NO_WRITE and mem[1] in ("rsp", "rbp") and not mem[2]:
+                    slot_writes.add((mem[1], mem[3], mem[4]))
+        written -= {"rsp"} if all(i.mn in ("mov", "pop", "ret", "vzeroupper") or "rsp" not in asmabi.writes(i) for i in later) else set()
+        self.stable_gprs = {r for r in M.gpr if r not in written and r != "rsp"}
+        self.stable_vecs = {r for r in M.vec if r not in written}
+        self.stable_k = {r for r in M.k if r not in written}
+        self.unstable_slots = set()
+        for base, disp, width in slot_writes:
+            g = M.gpr.get(base)
+            if g is None:
+                continue
+            fr = M.split_frame(g.add(G({}, disp)))
+            if fr:
+                for d in range(0, max(width, 4), 4):
+                    self.unstable_slots.add((fr[0], fr[1] + d))
+
+    # ---- queries ----
+    def state_at(self, head):
+        """(machine stopped at `head`) of the region that falls into the loop, i.e. the preheader"""
+        for start, (M, res) in self.regions.items():
+            if res[0] == "stop" and res[1] == head and start != head:
+                return start, M
+        return None, None
+
+    def loop_written(self, head):
+        srcs = self.cfg.heads.get(head, [])
+        if not srcs:
+            return set(), set()
+        lo, hi = self.idx[head], max(self.idx[a] for a in srcs)
+        regs = set()
+        for i in self.insns[lo:hi + 1]:
+            regs |= asmabi.writes(i)
+        return regs, (lo, hi)
+
+    def loop_written_slots(self, head, P):
+        """frame slots (dword granular) stored to by any instruction of the loop"""
+        _, rng = self.loop_written(head)
+        out = set()
+        if not rng:
+            return out
+        for i in self.insns[rng[0]:rng[1] + 1]:
+            if not i.ops or i.mn in asmabi.NO_WRITE:
+                continue
+            mem = mem_operand(i.ops[0])
+            if mem and asmabi.canon_reg(i.ops[0]) is None and mem[1] in ("rsp", "rbp") and not mem[2]:
+                g = P.gpr.get(mem[1])
+                fr = P.split_frame(g.add(G({}, mem[3]))) if g is not None else None
+                if fr:
+                    for d in range(0, max(mem[4], 4), 4):
+                        out.add((fr[0], fr[1] + d))
+                else:
+                    return set(P.frame) | set(P.frame64)      # unknown base: nothing is invariant
+        return out
+
+    def body_machine(self, head):
+        """the loop body evaluated from its head: loop-invariant registers carry their preheader values"""
+        pstart, P = self.state_at(head)
+        M = self.region_machine(head)
+        if P is not None:
+            wr, _ = self.loop_written(head)
+            for r, g in P.gpr.items():
+                if r not in wr:
+                    M.gpr[r] = g
+            for r, v in P.vec.items():
+                if r not in wr:
+                    M.vec[r] = list(v)
+            for r, v in P.k.items():
+                if r not in wr:
+                    M.k[r] = list(v)
+        res = M.run(self.insns, self.idx[head], stop_addrs=set())
+        return M, res, P
+
+
+def frame_off(T, t):
+    m = re.search(r"\[(-?0x[0-9a-f]+)\]", T.rev[t][1])
+    return int(m.group(1), 16)
+
+
+def check_hash_many(ctx, o, fname, inc):
+    tag = "%s:%s:inc%d" % (fname, o.flavour, inc)
+    where = o.src
+    try:
+        A = ManyAnalysis(o, fname, HASH_MANY_ARGS, increment=inc)
+    except Unsupported as u:
+        ctx.ob(False, "asm-hash-many:%s" % tag, where, "not decidable: %s" % u)
+        return 0
+    T = A.T
+    insns = A.insns
+    a = A.argsyms
+    F_, S_, E_ = T.sym("arg8:flags"), T.sym("arg8:flags_start"), T.sym("arg8:flags_end")
+    KEY, CTR = a["key"], a["counter"]
+    BLOCKS64 = a["blocks"].scale(64)
+    nstage = 0
+    for head in sorted(A.sym_heads):
+        if head not in A.regions:
+            continue
+        B, bres = A.regions[head]
+        if not (bres[0] == "branch" and bres[1][2] == head):
+            continue                      # an outer loop head / join point, not a block loop
+        lo_i, hi_i = A.idx[head], bres[1][3]
+        if sum(1 for i in insns[lo_i:hi_i + 1] if i.mn in ("paddd", "vpaddd")) < 12:
+            continue
+        nstage += 1
+        rel = head - A.base
+        inst = "asm-hash-stage:%s:+%#x" % (tag, rel)
+        after = insns[bres[1][3] + 1].addr
+        if after not in A.regions:
+            ctx.ob(False, inst, where, "no epilogue region after the block loop")
+            continue
+        E, eres = A.regions[after]
+        lay, err = out_layout(E, T)
+        if err:
+            ctx.ob(False, inst, where, "epilogue: %s" % err)
+            continue
+        loc, obase, omap = lay
+        W = 1 + max(g for g, i in loc)
+        if set(loc) != {(g, i) for g in range(W) for i in range(8)}:
+            ctx.ob(False, inst, where, "the epilogue does not store exactly 8 words for each of %d inputs" % W)
+            continue
+        pstart, P = A.state_at(head)
+        problem = None
+        if P is None:
+            problem = "no preheader region falls into this loop"
+        roles = {}
+        fl_cands = []
+        for k, v in B.scalar_frame_log:
+            if v not in fl_cands:
+                fl_cands.append(v)
+        for g in range(W):
+            if problem:
+                break
+            outs = [B.vec[loc[(g, i)][0]][loc[(g, i)][1]] for i in range(8)]
+            msg, err = classify_message(T, outs[0])
+            if err:
+                problem = "input %d: %s" % (g, err)
+                break
+            m, items, c0 = msg
+            h = [T.sym("%s.%d" % loc[(g, i)]) for i in range(8)]
+            fsyms = sorted((x for x in leaf_set(T, outs[0]) if T.rev[x][0] == "sym" and re.match(r"frame\[", T.rev[x][1])), key=lambda x: frame_off(T, x))
+            found = None
+            for lo, hi in [(x, y) for x in fsyms for y in fsyms if x != y]:
+                for fl in fl_cands:
+                    v = r_round.spec_compress_pre(T, h, m, lo, hi, T.const(64), fl)
+                    if all(T.xor(v[i], v[i + 8]) == outs[i] for i in range(8)):
+                        found = (lo, hi, fl)
+                        break
+                if found:
+                    break
+            if not found:
+                if len(fsyms) >= 2 and fl_cands:
+                    v = r_round.spec_compress_pre(T, h, m, fsyms[0], fsyms[1], T.const(64), fl_cands[-1])
+                    for i in range(8):
+                        want = T.xor(v[i], v[i + 8])
+                        if outs[i] != want:
+                            dd = divergence(T, outs[i], want) or (outs[i], want)
+                            problem = "input %d word %d is not the spec compression of (h, block, counter slots, 64, flags): code has %s ; spec has %s" % (g, i, T.show(dd[0])[:110], T.show(dd[1])[:110])
+                            break
+                problem = problem or "input %d: counter slots / flags could not be identified (%d frame symbols, %d scalar candidates)" % (g, len(fsyms), len(fl_cands))
+                break
+            roles[g] = dict(m=m, items=items, c0=c0, lo=found[0], hi=found[1], fl=found[2])
+        if problem is None:
+            lo0, hi0 = frame_off(T, roles[0]["lo"]), frame_off(T, roles[0]["hi"])
+            rdx0 = None
+            for g in range(W):
+                r = roles[g]
+                if frame_off(T, r["lo"]) != lo0 + 4 * g or frame_off(T, r["hi"]) != hi0 + 4 * g:
+                    problem = "input %d takes its counter from frame slots %#x/%#x ; the arrays start at %#x/%#x" % (g, frame_off(T, r["lo"]), frame_off(T, r["hi"]), lo0, hi0)
+                    break
+                # message address = inputs[g] + (block offset at loop entry)
+                its = dict(r["items"])
+                ptr = T.mk("ld64", P.gpr.get("rdi", reg_sym(P, "rdi")).add(G({}, 8 * g)).key()) if P is not None else None
+                rest = {k: v for k, v in its.items() if k != ptr}
+                if its.get(ptr) != 1 or len(rest) != 1 or list(rest.values()) != [1] or r["c0"] != 0:
+                    problem = "input %d: message words are read from %s%+d ; required inputs[%d] + block offset" % (g, [(T.show(k)[:40], v) for k, v in its.items()], r["c0"], g)
+                    break
+                off_sym = list(rest)[0]
+                if rdx0 is None:
+                    rdx0 = off_sym
+                elif rdx0 != off_sym:
+                    problem = "inputs use different block offsets"
+                    break
+        if problem is None:
+            if len({roles[g]["fl"] for g in range(W)}) != 1:
+                problem = "inputs use different flag words"
+        if problem is None:
+            # block offset register: += 64 per iteration, 0 at loop entry; loop while offset+64 != 64*blocks
+            offreg = [r for r, g in B.gpr.items() if set(g.items) == {rdx0} and g.items[rdx0] == 1 and g.c == 64]
+            if not offreg:
+                problem = "no register holds (block offset + 64) at the end of the body"
+            else:
+                orr = offreg[0]
+                if not (P.gpr[orr].is_const() and P.gpr[orr].c == 0):
+                    problem = "block offset register %s is not 0 on loop entry" % orr
+                f = B.flags
+                if problem is None and not (f[0] == "cmp" and bres[1][1] in ("ne", "nz") and f[1].key() == G({rdx0: 1}, 64).key() and f[2].key() == BLOCKS64.key()):
+                    problem = "the block loop does not run while offset + 64 != 64 * blocks (%s %s)" % (bres[1][1], f[0])
+        if problem is None:
+            # flags: (first ? flags|flags_start : flags) | (last ? flags_end : 0)
+            fl = roles[0]["fl"]
+            cur_reg = None
+            n = T.rev[fl]
+            ok = n[0] == "ite" and T.rev[n[1]][0] == "cc" and T.rev[n[1]][1] == "e" and T.rev[n[1]][3] == G({rdx0: 1}, 64).key() and T.rev[n[1]][4] == BLOCKS64.key()
+            if ok:
+                last_v, other_v = n[2], n[3]
+                ok = last_v == asmsym.t_or(T, other_v, E_) and T.rev[other_v][0] in ("lo", "sym")
+            if not ok:
+                problem = "block flags are %s ; required (offset+64 == 64*blocks) ? cur | flags_end : cur" % T.show(fl)[:160]
+            else:
+                cur = other_v
+                regs = [r for r, g in P.gpr.items() if P.lo32(g) == asmsym.t_or(T, F_, S_)]
+                curname = T.rev[cur][1] if T.rev[cur][0] == "sym" else T.rev[T.rev[cur][1]][1]
+                if curname not in regs:
+                    problem = "the flags register %s is not flags|flags_start on loop entry (registers holding that value: %s)" % (curname, regs)
+                elif B.lo32(B.gpr[curname]) != F_:
+                    problem = "after a block the flags register %s is %s ; required flags" % (curname, T.show(B.lo32(B.gpr[curname]))[:80])
+        if problem is None:
+            # chaining value on loop entry = key
+            for g in range(W):
+                for i in range(8):
+                    R, k = loc[(g, i)]
+                    if P.vec.get(R, [None] * 16)[k] != T.mk("ld32", KEY.add(G({}, 4 * i)).key()):
+                        problem = "on loop entry, word %d of input %d is %s ; required key[%d]" % (i, g, T.show(P.vec.get(R, [0] * 16)[k])[:60] if R in P.vec else "unset", i)
+                        break
+                if problem:
+                    break
+        if problem is None:
+            # epilogue: cursors and counters
+            OUTB = G(dict(obase[0]), 0)
+            outreg = [r for r, g in E.gpr.items() if g.add(OUTB, -1).is_const() and g.add(OUTB, -1).c == 32 * W]
+            inp, cnt = "rdi", "rsi"      # the Windows flavour moves its arguments into the System V registers in the prologue
+            di = E.gpr.get(inp, reg_sym(E, inp)).add(reg_sym(E, inp), -1)
+            ni = E.gpr.get(cnt, reg_sym(E, cnt)).add(reg_sym(E, cnt), -1)
+            if W == 1:
+                pass        # nothing can follow the single-input stage
+            elif not outreg:
+                problem = "no register holds out + %d after the stage" % (32 * W)
+            elif not (di.is_const() and di.c == 8 * W):
+                problem = "the inputs pointer advances by %s ; required %d" % (hex(di.c) if di.is_const() else "?", 8 * W)
+            elif not (ni.is_const() and ni.c == (-W) & ((1 << 64) - 1)):
+                problem = "num_inputs changes by %s ; required -%d" % (hex(ni.c) if ni.is_const() else "?", W)
+        if problem is None:
+            fb = [k for k, nm in E.frame_regs.items() if nm == "frame"][0]
+            L = min(16, abs(hi0 - lo0) // 4)
+            loops = eres[0] == "branch" and eres[1][2] is not None and eres[1][2] == pstart
+            for j in (range(L) if loops else range(max(W - 1, 0))):
+                ol, oh = T.sym("frame[%s]" % hex(lo0 + 4 * j)), T.sym("frame[%s]" % hex(hi0 + 4 * j))
+                nl, nh = E.frame.get((fb, lo0 + 4 * j), ol), E.frame.get((fb, hi0 + 4 * j), oh)
+                if loops:
+                    if not carry_add(T, nl, nh, ol, oh, W * inc):
+                        problem = "after a pass of the %d-input loop stage counter lane %d is (lo %s, hi %s) ; required + %d (increment_counter = %d)" % (W, j, T.show(nl)[:50], T.show(nh)[:60], W * inc, inc)
+                        break
+                else:
+                    sl, sh = T.sym("frame[%s]" % hex(lo0 + 4 * (j + W))), T.sym("frame[%s]" % hex(hi0 + 4 * (j + W)))
+                    if not ((nl == sl and nh == sh) or (inc == 0 and nl == ol and nh == oh)):
+                        problem = "after the %d-input tail stage counter lane %d is (lo %s, hi %s) ; the next stage needs the value of lane %d" % (W, j, T.show(nl)[:50], T.show(nh)[:60], j + W)
+                        break
+        if problem is None:
+            # the stage is entered under the matching test of the remaining-input count
+            k = A.idx[pstart]
+            prev = [i for i in insns[max(0, k - 4):k] if i.mn != "nop"][-2:]
+            okd = False
+            if len(prev) == 2 and asmabi.is_jump(prev[1].mn) and asmabi.canon_reg(prev[0].ops[0]) == "rsi" and re.fullmatch(r"(0x[0-9a-f]+|\d+)", prev[0].ops[1].strip()):
+                imm = int(prev[0].ops[1], 0)
+                if loops:
+                    okd = prev[0].mn == "cmp" and imm == W and prev[1].mn in ("jb", "jc")
+                else:
+                    okd = prev[0].mn == "test" and imm == W and prev[1].mn in ("je", "jz")
+            if not okd and loops:
+                # the outer loop is re-entered from its own tail: cmp rsi, W; jae head
+                f = eres[1][0]
+                okd = E.flags[0] == "cmp" and E.flags[2].is_const() and E.flags[2].c == W and eres[1][1] in ("ae", "nc")
+                prev2 = [i for i in insns[max(0, k - 4):k] if i.mn != "nop"][-2:]
+                okd = okd and len(prev2) == 2 and prev2[0].mn == "cmp" and int(prev2[0].ops[1], 0) == W
+            if not okd:
+                problem = "the %d-input stage is not guarded by the matching test of num_inputs (%s)" % (W, " ; ".join(i.raw.split("\t", 1)[-1].strip() for i in prev))
+        if problem is None and loops and rel == min(h - A.base for h in A.sym_heads if h in A.regions and A.regions[h][1][0] == "branch" and A.regions[h][1][1][2] == h):
+            # prologue: the counter arrays
+            PR = A.prologue
+            pfb = [kk for kk, nm in PR.frame_regs.items() if nm == "frame"]
+            lo_c, hi_c = T.mk("lo", list(CTR.items)[0]), T.mk("hi", list(CTR.items)[0])
+            for j in range(L):
+                nl, nh = PR.frame.get((pfb[0], lo0 + 4 * j)) if pfb else None, PR.frame.get((pfb[0], hi0 + 4 * j)) if pfb else None
+                if nl is None or nh is None or not carry_add(T, nl, nh, lo_c, hi_c, j * inc):
+                    problem = "initial counter lane %d is (lo %s, hi %s) ; required counter + %d (increment_counter = %d)" % (j, T.show(nl)[:50] if nl is not None else None, T.show(nh)[:70] if nh is not None else None, j * inc, inc)
+                    break
+        ctx.ob(problem is None, inst, where, problem or "%d-input stage: body = spec compression per input (h, 64 message bytes at inputs[g]+offset, counter slots %#x/%#x + 4g, 64, block flags), h := key and flags := flags|flags_start on entry, |flags_end on the last block, reset to flags; epilogue stores out[32g+4i], advances out/inputs/num_inputs by %d and the counters by %d"
+               % (W, lo0, hi0, W, W * inc))
+    # memory footprint of the whole routine, region by region: stores only in the stage epilogues (exactly the 32 bytes per
+    # input checked above); loads only from key[0..32), the inputs pointer array, and 64 message bytes at the block offset
+    used_epilogues = set()
+    for head in A.sym_heads:
+        if head in A.regions and A.regions[head][1][0] == "branch" and A.regions[head][1][1][2] == head:
+            used_epilogues.add(insns[A.regions[head][1][1][3] + 1].addr)
+    stray = []
+    badloads = []
+    keysym = list(KEY.items)[0]
+    for start, (M, res) in A.regions.items():
+        if M.stores and start not in used_epilogues:
+            stray.append("+%#x" % (start - A.base))
+        for key, width in M.loads:
+            items, c = dict(key[0]), key[1]
+            c = c if c < (1 << 63) else c - (1 << 64)
+            if items == {keysym: 1} and 0 <= c and c + width <= 32:
+                continue
+            syms = list(items)
+            names = [T.rev[x] for x in syms]
+            if len(syms) == 1 and names[0][0] == "sym" and names[0][1] == "rdi" and c % 8 == 0 and 0 <= c < 128 and width == 8:
+                continue            # inputs[g]
+            if len(syms) == 1 and syms[0] in A.argsyms["inputs"].items and c % 8 == 0 and 0 <= c < 128 and width == 8:
+                continue
+            ptrs = [x for x in syms if T.rev[x][0] == "ld64"]
+            offs = [x for x in syms if T.rev[x][0] == "sym"]
+            if len(ptrs) == 1 and len(offs) <= 1 and all(v == 1 for v in items.values()) and 0 <= c and c + width <= 64:
+                continue            # 64 message bytes of one input at the current block offset
+            badloads.append("+%#x: %d bytes at %s%+d" % (start - A.base, width, [(T.show(x)[:40], v) for x, v in items.items()], c))
+    ctx.ob(not stray and not badloads, "asm-hash-memory:%s" % tag, where,
+           ("stores outside the stage epilogues in regions %s; " % stray if stray else "") + ("; ".join(badloads[:2]) if badloads else "") or
+           "%d regions: caller memory is written only by the stage epilogues (32 bytes per input) and read only at key[0..32), inputs[g] and the 64 bytes of each input at the block offset" % len(A.regions))
+    return nstage
